@@ -77,6 +77,73 @@ def precisionsFull (d : Nat) (pc : List (List α)) : List (List α) :=
   (List.range d).map fun a => (List.range d).map fun b =>
     sumRange d fun c => at2 pc a c * at2 pc b c
 
+
+/-! ## The loop of `GmmValidParams::fit`
+
+`fit` builds one initial model and then walks along ONE deterministic chain of EM states
+`s₀ → s₁ → …` (`sₜ₊₁ = m_step(sₜ, e_step(sₜ).log_resp)`; the model is **not** re-initialised between
+runs, a new run only forgets the previous lower bound).  What the loop decides — when a run stops, which
+run is kept, `Ok` or which error — depends on the chain only through the sequence of lower bounds
+`lbₜ = e_step(sₜ).log_mean` and the first error a step raises.  `tr[t]` is the outcome of step `t`
+(`.ok lbₜ`, or `.error kind` when `e_step`/`m_step` failed).  `none` stands for the `−∞` the code
+initialises `lower_bound` / `max_lower_bound` with. -/
+
+/-- `change = lower_bound - prev_lower_bound; change.abs() < tolerance`; with `prev = −∞` the change is
+`+∞` (or NaN): never below the tolerance -/
+def convTest (tol : α) (prev : Option α) (lb : α) : Bool :=
+  match prev with
+  | none => false
+  | some p => absS (lb - p) < tol
+
+/-- one run, `for n_iter in 0..max_n_iterations` (`fuel` iterations left, `iter = n_iter`), from chain
+position `pos` with previous lower bound `prev`.  Result: position after the run, `lower_bound`,
+`converged_iter`; or the error of the step that failed (`?`). -/
+def runLoop (tol : α) (tr : List (Except String α)) :
+    Nat → Nat → Nat → Option α → Except String (Nat × Option α × Option Nat)
+  | 0, _, pos, prev => .ok (pos, prev, none)
+  | fuel + 1, iter, pos, prev =>
+    match tr[pos]? with
+    | none => .error "trace-exhausted"
+    | some (.error e) => .error e
+    | some (.ok lb) =>
+      if convTest tol prev lb then .ok (pos + 1, some lb, some iter)
+      else runLoop tol tr fuel (iter + 1) (pos + 1) (some lb)
+
+/-- `max_lower_bound`, `best_params` (as the chain index of the cloned state), `best_iter` -/
+structure Best (α : Type) where
+  maxLb : Option α
+  best : Option Nat
+  bestIter : Option Nat
+
+/-- `lower_bound > max_lower_bound` with `none = −∞` -/
+def lbGreater (lb maxLb : Option α) : Bool :=
+  match lb, maxLb with
+  | none, _ => false
+  | some _, none => true
+  | some v, some m => m < v
+
+/-- `for _ in 0..n_runs`: returns the bookkeeping after the last run and the chain position reached -/
+def fitRuns (tol : α) (maxIter : Nat) (tr : List (Except String α)) :
+    Nat → Nat → Best α → Except String (Best α × Nat)
+  | 0, pos, b => .ok (b, pos)
+  | runs + 1, pos, b =>
+    match runLoop tol tr maxIter 0 pos none with
+    | .error e => .error e
+    | .ok (pos', lb, conv) =>
+      let b' : Best α := if lbGreater lb b.maxLb then ⟨lb, some pos', conv⟩ else b
+      fitRuns tol maxIter tr runs pos' b'
+
+/-- the result of `fit`: the chain index of the returned state, or the error kind -/
+def fitOutcome (tol : α) (maxIter nRuns : Nat) (tr : List (Except String α)) : Except String Nat :=
+  match fitRuns tol maxIter tr nRuns 0 ⟨none, none, none⟩ with
+  | .error e => .error e
+  | .ok (b, _) =>
+    match b.bestIter with
+    | some _ => (match b.best with
+      | some i => .ok i
+      | none => .error "LowerBoundError")
+    | none => .error "NotConverged"
+
 variable [Transc α]
 
 /-- `compute_log_det_cholesky_full`: sum of the logs of the diagonal of `precisions_chol` -/
@@ -130,6 +197,16 @@ def argmaxFirst : List α → Nat
 def predictProba (ln2pi : α) (d : Nat) (w : List α) (mu : List (List α))
     (pcs : List (List (List α))) (x : List α) : List α :=
   (logRespStable (weightedLogProb ln2pi d w mu pcs x)).2.map Transc.exp
+
+/-- the responsibilities `e_step` hands to `m_step` (`log_resp.mapv(exp)`), one row per observation -/
+def eResp (ln2pi : α) (d : Nat) (w : List α) (mu : List (List α))
+    (pcs : List (List (List α))) (x : List (List α)) : List (List α) :=
+  x.map (predictProba ln2pi d w mu pcs)
+
+/-- one EM iteration as `fit` performs it: `e_step` on the current mixture, then `m_step` -/
+def emStep (thr reg ln2pi : α) (d : Nat) (w : List α) (mu : List (List α))
+    (pcs : List (List (List α))) (x : List (List α)) : Except String (Params α) :=
+  estimateParams thr reg x.length d w.length x (eResp ln2pi d w mu pcs x)
 
 /-- one entry of `predict` -/
 def predict (ln2pi : α) (d : Nat) (w : List α) (mu : List (List α))
